@@ -13,9 +13,11 @@ NONE == [k |-> "none"]
 I(v) == [k |-> "i", v |-> v]
 S(v) == [k |-> "s", v |-> v]
 M(o) == [k |-> "m", m |-> o]
+R(xs) == [k |-> "r", xs |-> xs]                    \* a repeated scalar field: the list object the slot holds
+MaxList == 1                                       \* (in-place appends per list in the exhaustive configuration)
 
 (* ---------------- schema (data) ---------------- *)
-Fields(ty) == IF ty = "T" THEN <<"f1", "f2", "f3", "f4", "f5", "f6", "f7", "f8">> ELSE <<"x">>
+Fields(ty) == IF ty = "T" THEN <<"f1", "f2", "f3", "f4", "f5", "f6", "f7", "f8">> ELSE <<"x", "ys">>
 Meta(ty) ==
   IF ty = "T" THEN
     [ f1 |-> [n |-> 1, kind |-> "i", group |-> "",   opt |-> FALSE],
@@ -26,7 +28,8 @@ Meta(ty) ==
       f6 |-> [n |-> 6, kind |-> "i", group |-> "",   opt |-> TRUE],
       f7 |-> [n |-> 7, kind |-> "m", group |-> "",   opt |-> FALSE],
       f8 |-> [n |-> 8, kind |-> "w", group |-> "",   opt |-> FALSE] ]
-  ELSE [ x |-> [n |-> 1, kind |-> "i", group |-> "", opt |-> FALSE] ]
+  ELSE [ x  |-> [n |-> 1, kind |-> "i", group |-> "", opt |-> FALSE],
+         ys |-> [n |-> 2, kind |-> "r", group |-> "", opt |-> FALSE] ]
 FieldSet(ty) == { Fields(ty)[j] : j \in DOMAIN Fields(ty) }
 Groups(ty) == { Meta(ty)[f].group : f \in FieldSet(ty) } \ {""}
 Members(ty, g) == { f \in FieldSet(ty) : Meta(ty)[f].group = g }
@@ -38,7 +41,7 @@ FreshInner == [ slot |-> [f \in FieldSet("Inner") |-> PH], sow |-> FALSE,
 Default(ty, f) ==
   LET m == Meta(ty)[f] IN
   IF m.opt \/ m.kind = "w" THEN NONE
-  ELSE CASE m.kind = "i" -> I(0) [] m.kind = "s" -> S("") [] m.kind = "m" -> M(FreshInner)
+  ELSE CASE m.kind = "i" -> I(0) [] m.kind = "s" -> S("") [] m.kind = "m" -> M(FreshInner) [] m.kind = "r" -> R(<<>>)
 
 (* ---------------- __post_init__ ---------------- *)
 NonSentinel(ty, f, v) == v # PH /\ ~(Meta(ty)[f].opt /\ v = NONE)
@@ -94,6 +97,7 @@ EncField(ty, o, f) ==     \* the entries written for f (<<>> when _serialize_sin
       incl     == m.group # "" /\ o.cur[m.group] = f
       sempty2  == sempty \/ (v.k = "s" /\ v.v = "" /\ incl) \/ selected
   IN CASE m.kind = "i" -> << [n |-> m.n, v |-> v] >>
+       [] m.kind = "r" -> [j \in 1..Len(v.xs) |-> [n |-> m.n, v |-> v.xs[j]]]
        [] m.kind = "s" -> IF v.v # "" \/ sempty2 THEN << [n |-> m.n, v |-> v] >> ELSE <<>>
        [] m.kind = "m" -> LET inner == Encode("Inner", v.m) IN
                           IF inner # <<>> \/ sempty2 THEN << [n |-> m.n, v |-> [k |-> "l", l |-> inner]] >> ELSE <<>>
@@ -128,7 +132,8 @@ Load(ty, o, es) ==
                 v == CASE kind = "m" -> M([Load("Inner", [FreshInner EXCEPT !.sow = TRUE], e.v.l) EXCEPT !.sow = TRUE])
                        [] kind = "w" -> WrapVal(e.v.l)
                        [] OTHER -> e.v
-            IN Load(ty, SetAttr(ty, o, f, v), Tail(es))
+            IN IF kind = "r" THEN Load(ty, [o EXCEPT !.slot[f] = R(Append(ValueOf(ty, o, f).xs, e.v))], Tail(es))
+               ELSE Load(ty, SetAttr(ty, o, f, v), Tail(es))
 Parse(ty, o, es) == Load(ty, [o EXCEPT !.sow = TRUE], es)
 
 (* ---------------- copy / deepcopy / pickle ---------------- *)
@@ -146,7 +151,7 @@ vars == <<obj, last>>
 
 ScalarVals(kind) == CASE kind = "i" -> {I(0), I(1)} [] kind = "s" -> {S(""), S("v")}
                       [] kind = "w" -> {I(0), I(1), NONE}
-InnerVals == { New("Inner", <<>>), New("Inner", [x |-> I(0)]), New("Inner", [x |-> I(1)]) }
+InnerVals == { New("Inner", <<>>), New("Inner", [x |-> I(0)]), New("Inner", [x |-> I(1)]), New("Inner", [ys |-> R(<<I(1)>>)]) }
 ValsFor(f) == LET m == Meta("T")[f] IN
               IF m.kind = "m" THEN { M(o) : o \in InnerVals }
               ELSE ScalarVals(m.kind) \cup (IF m.opt THEN {NONE} ELSE {})
@@ -162,6 +167,8 @@ Pool == {  <<>>,
            << [n |-> 6, v |-> I(0)] >>,
            << [n |-> 7, v |-> L(<<>>)] >>,
            << [n |-> 7, v |-> L(<< [n |-> 1, v |-> I(1)], [n |-> 9, v |-> I(1)] >>)] >>,
+           << [n |-> 7, v |-> L(<< [n |-> 2, v |-> I(1)] >>)] >>,
+           << [n |-> 3, v |-> L(<< [n |-> 2, v |-> I(1)], [n |-> 1, v |-> I(1)] >>)] >>,
            << [n |-> 8, v |-> L(<<>>)] >>,
            << [n |-> 8, v |-> L(<< [n |-> 1, v |-> I(1)] >>)] >> }
 
@@ -179,11 +186,21 @@ ASetIn(f, v) == /\ Meta("T")[f].kind = "m"
                    THEN LET o1 == Materialise1("T", obj, f) IN
                         obj' = [o1 EXCEPT !.slot[f] = M(SetAttr("Inner", @.m, "x", v))] /\ last' = [op |-> "setin", r |-> "ok"]
                    ELSE obj' = obj /\ last' = [op |-> "setin", r |-> "AttributeError"]
-AGetIn(f) == /\ Meta("T")[f].kind = "m"
-             /\ IF Readable("T", obj, f)
-                THEN LET o1 == Materialise1("T", obj, f) IN
-                     obj' = [o1 EXCEPT !.slot[f] = M(Materialise1("Inner", @.m, "x"))] /\ last' = [op |-> "getin", r |-> "ok"]
-                ELSE obj' = obj /\ last' = [op |-> "getin", r |-> "AttributeError"]
+AGetIn(f, x) == /\ Meta("T")[f].kind = "m"
+                /\ IF Readable("T", obj, f)
+                   THEN LET o1 == Materialise1("T", obj, f) IN
+                        obj' = [o1 EXCEPT !.slot[f] = M(Materialise1("Inner", @.m, x))] /\ last' = [op |-> "getin", r |-> "ok"]
+                   ELSE obj' = obj /\ last' = [op |-> "getin", r |-> "AttributeError"]
+\* m.<f>.ys.append(1): two reads (each materialises a default) and a change of the list object in place - no __setattr__ anywhere,
+\* so no presence flag moves
+AAppendIn(f) == /\ Meta("T")[f].kind = "m"
+                /\ IF Readable("T", obj, f)
+                   THEN LET o1 == Materialise1("T", obj, f)
+                            in1 == Materialise1("Inner", o1.slot[f].m, "ys") IN
+                        /\ Len(in1.slot["ys"].xs) < MaxList
+                        /\ obj' = [o1 EXCEPT !.slot[f] = M([in1 EXCEPT !.slot["ys"] = R(Append(@.xs, I(1)))])]
+                        /\ last' = [op |-> "appendin", r |-> "ok"]
+                   ELSE obj' = obj /\ last' = [op |-> "appendin", r |-> "AttributeError"]
 AParse(es) == obj' = Parse("T", obj, es) /\ last' = [op |-> "parse"]
 ABytes == obj' = MatAll("T", obj) /\ last' = [op |-> "bytes", out |-> Encode("T", obj)]
 ADeepCopy == obj' = DeepCopy("T", obj) /\ last' = [op |-> "deepcopy"]
@@ -194,7 +211,7 @@ Next ==
   \/ \E f \in FieldSet("T") : \E v \in ValsFor(f) : ANew1(f, v) \/ ASet(f, v)
   \/ \E f \in {"f2", "f3"}, f2 \in {"f4", "f7"} : \E v \in ValsFor(f), v2 \in ValsFor(f2) : ANew2(f, v, f2, v2)
   \/ \E f \in FieldSet("T") : AGet(f)
-  \/ \E f \in {"f3", "f7"} : AGetIn(f) \/ \E v \in {I(0), I(1)} : ASetIn(f, v)
+  \/ \E f \in {"f3", "f7"} : (\E x \in {"x", "ys"} : AGetIn(f, x)) \/ (\E v \in {I(0), I(1)} : ASetIn(f, v)) \/ AAppendIn(f)
   \/ \E es \in Pool : AParse(es)
   \/ ABytes \/ ADeepCopy \/ ACopy \/ APickle
 Spec == Init /\ [][Next]_vars
@@ -225,14 +242,21 @@ ExplicitPresenceEmitted ==
   /\ (obj.slot["f8"] \notin {NONE, PH}) => 8 \in EntryNums(Encode("T", obj))
   /\ \A g \in Groups("T") : obj.cur[g] # "-" => Meta("T")[obj.cur[g]].n \in EntryNums(Encode("T", obj))
 \* a plain sub-message is emitted exactly when serialized_on_wire reports it
+\* (serialized_on_wire(m) = the flag, or the message has content: a sub-message filled only in place - AAppendIn - has never
+\*  been assigned to; since 70e0ad2 the public function reports it)
+HasContent(ty, o) == \E f \in FieldSet(ty) : o.slot[f] # PH /\ ~ValEq(o.slot[f], Default(ty, f))
+SowReported(ty, o) == o.sow \/ HasContent(ty, o)
 SubmessageEmittedIffSow ==
+  (7 \in EntryNums(Encode("T", obj))) <=> (obj.slot["f7"].k = "m" /\ SowReported("Inner", obj.slot["f7"].m))
+\* the same with the bare flag: NOT an invariant (TLC finds  AAppendIn("f7")) - that was the defect
+SubmessageEmittedIffRawFlag ==
   (7 \in EntryNums(Encode("T", obj))) <=> (obj.slot["f7"].k = "m" /\ obj.slot["f7"].m.sow)
 (* ---- C14: every observer action leaves encoding and equality unchanged ---- *)
-ObserversPure == [][(\E f \in FieldSet("T") : AGet(f)) \/ (\E f \in {"f3", "f7"} : AGetIn(f)) \/ ABytes
+ObserversPure == [][(\E f \in FieldSet("T") : AGet(f)) \/ (\E f \in {"f3", "f7"} : \E x \in {"x", "ys"} : AGetIn(f, x)) \/ ABytes
                      => (Encode("T", obj') = Encode("T", obj) /\ MsgEq("T", obj', obj))]_vars
 CopyFaithful == [][ACopy => (Encode("T", obj') = Encode("T", obj) /\ MsgEq("T", obj', obj))]_vars
 \* bounds for the exhaustive configuration: the unknown-field pools must stay finite
-NestedUnkOK(o) == \A f \in FieldSet("T") : o.slot[f].k = "m" => Len(o.slot[f].m.unk) <= 1
+NestedUnkOK(o) == \A f \in FieldSet("T") : o.slot[f].k = "m" => (Len(o.slot[f].m.unk) <= 1 /\ (o.slot[f].m.slot["ys"] = PH \/ Len(o.slot[f].m.slot["ys"].xs) <= 2))
 Bounded == Len(obj.unk) <= 1 /\ NestedUnkOK(obj)
 ViewObj == obj
 CONSTANT MaxLevel
